@@ -317,7 +317,7 @@ func evalSweep(a vh.Args, res *vh.Result, c *tcase, verdict, arg string, mm func
 			// payloads too large to hand to the model: the expectation REJECT still stands for a
 			// removed component
 			if c.mut.Kind == "array-empty" || c.mut.Kind == "element-null" || c.mut.Kind == "bytes-empty" ||
-				(verdict == "" && (c.mut.Kind == "field-null" || c.mut.Kind == "field-drop")) {
+				(verdict == "" && (c.mut.Kind == "field-null" || c.mut.Kind == "field-drop") && strings.Count(c.mut.Path, "/") == 1) {
 				mm("prop", s.typ+"/missing-component-accepted", "the recipient completes the protocol although a component was emptied: "+detail, "C12 decoding validates like construction: a message with a missing component is refused by the decoder or by Validate", true)
 			}
 		}
